@@ -176,6 +176,15 @@ func run(_ *testing.T, c Case) engine.Verdict {
 				case refframe.DontCare:
 					comparing = false
 					labels = append(labels, "dontcare:"+st.Why)
+				case refframe.ExactOrErr:
+					if res.err != nil {
+						comparing = false
+						labels = append(labels, "dontcare:malformed field name refused")
+						break
+					}
+					if !bytes.Equal(res.data, st.Rec) {
+						return engine.Failf("C12/"+fname+"/wrong-record", "Recv #%d: want record %s (%s), got %s; stream %s", i, engine.Q(st.Rec), st.Why, engine.Q(res.data), engine.Q(stream))
+					}
 				case refframe.Exact:
 					if res.err != nil {
 						return engine.Failf("C12/"+fname+"/record-refused", "Recv #%d: want record %s (%s), got error %v (data %s); stream %s", i, engine.Q(st.Rec), st.Why, res.err, engine.Q(res.data), engine.Q(stream))
@@ -598,7 +607,52 @@ func enumBuf(env engine.Env, yield func(Case) bool) {
 	}
 }
 
+// fieldnames: header field names that are almost, or in another spelling
+// exactly, Content-Length / Content-Type: only a case-insensitive match of the
+// whole name counts, everything else is an unknown field and ignored.
+func enumNames(env engine.Env, yield func(Case) bool) {
+	idx := 0
+	variants := []string{"Content\rLength", "content\rlength", "Content_Length", "Content-Length ", " Content-Length", "Content-Length\t", "ContentLength",
+		"Content--Length", "Content-Lengt", "Content-Lengthh", "CONTENT-LENGTH", "cOnTeNt-LeNgTh", "Content\x0bLength", "Content\x0dLength", "Content\x00Length",
+		"Content@Length", "Content\x7fLength", "Content-\xccength", "Content\rType", "content\rtype", "CONTENT-TYPE", "Content-Typ"}
+	for _, f := range framings {
+		if f.Name != "strict" && f.Name != "header" {
+			continue
+		}
+		ct := ""
+		if f.Mime != "" {
+			ct = "Content-Type: " + f.Mime + "\r\n"
+		}
+		for _, v := range variants {
+			val := "2"
+			if strings.Contains(strings.ToLower(v), "typ") {
+				val = "x/other"
+			}
+			streams := []string{
+				ct + "Content-Length: 5\r\n" + v + ": " + val + "\r\n\r\nhello" + string(frame(f, []byte("[]"), f.Mime != "")),
+				ct + v + ": " + val + "\r\nContent-Length: 5\r\n\r\nhello" + string(frame(f, []byte("[]"), f.Mime != "")),
+				ct + v + ": " + val + "\r\n\r\nhello",
+			}
+			for si, s := range streams {
+				for d := 0; d < 3; d++ {
+					idx++
+					if !env.Mine(idx) {
+						continue
+					}
+					c := Case{Framing: f, Stream: engine.Bytes(s), Origin: fmt.Sprintf("fieldnames:%d", si), EOFWithData: d == 1, OneByte: d == 2}
+					if !yield(c) {
+						return
+					}
+				}
+			}
+		}
+	}
+}
+
 var parts = []engine.AnyPart{
+	engine.Part[Case]{Name: "fieldnames", Run: run, Enum: enumNames,
+		Rule:           "header blocks in which a field name is almost Content-Length / Content-Type (a control byte, underscore, space or other byte in place of the hyphen or a letter, a letter missing or doubled) or is it in another letter case, next to, before, or instead of the real field; non-trivial as in enum; distinct = (framing, stream, delivery)",
+		EnumExhaustive: "the stated family of near-miss field names for every header framing"},
 	engine.Part[Case]{Name: "bufsize", Run: run, Enum: enumBuf,
 		Rule:           "records (split framings) and header lines (header framings) whose length is 4096k-2 .. 4096k+2, terminated or cut off by the end of the stream, alone or next to short records, a header-line tail that reads like a second Content-Length; delivered whole, with data+EOF, and in reads that end on or just before buffer boundaries; non-trivial as in enum; distinct = (framing, stream, delivery)",
 		EnumExhaustive: "the stated family of buffer-boundary streams for every framing"},
